@@ -70,6 +70,11 @@ let handle (line : string) : string =
   | "RO" ->   (* RO pi lo hi lowerBound upperBound -> asis fixed *)
       let pi = next_q () in let lo = next_q () in let hi = next_q () in let lb = next_q () in let ub = next_q () in
       (if rh_overlap (lo, hi) lb ub then "1" else "0") ^ " " ^ (if rh_overlap_fixed pi (lo, hi) lb ub then "1" else "0")
+  | "BB" ->   (* BB b n {lo hi}*n -> mid ext per axis: the BoxRegion of _bufferOverapproximate's fast path *)
+      let b = next_q () in let n = next_int () in
+      let rec rd k = if k <= 0 then [] else let lo = next_q () in let hi = next_q () in (lo, hi) :: rd (k - 1) in
+      let bounds = rd n in
+      String.concat " " (List.map (fun (m, e) -> sq m ^ " " ^ sq e) (buffer_box bounds b))
   | "VB" -> let a = next_q () in let b = next_q () in let c = next_q () in sq (visibility_bound a b c)
   | s -> failwith ("cmd " ^ s)
 
